@@ -130,8 +130,9 @@ C09_Files(t, w) == \A p \in Paths :
 C09_Dirs(t, w) == \A p \in Paths : IsDir(t[p]) => IsDir(w[p])
 C09_Settled(L2) == L2.files_create = {} /\ L2.dirs_create = {} /\ L2.files_delete = {} /\ L2.dirs_delete = <<>>
 \* without deletion nothing outside the target is removed
-C09_Keeps(w0, t, w) == \A p \in Paths : (There(w0[p]) /\ ~There(t[p]) /\ ~\E q \in Paths : There(t[q]) /\ Below(p, q) /\ ~IsDir(t[q]))
-                                            => w[p] = w0[p]
+\* (also what lies below a directory that the target wants as a file: the directory cannot be removed while it has
+\* content, the entry goes to the error callback, the content stays)
+C09_Keeps(w0, t, w) == \A p \in Paths : (There(w0[p]) /\ ~There(t[p])) => w[p] = w0[p]
 \* an entry whose source is unavailable is reported, not silently skipped
 C09_Reported(t, a, w, E) == \A p \in Paths : (IsFile(t[p]) /\ t[p].c \notin a /\ ~(IsFile(w[p]) /\ w[p].c = t[p].c)) => p \in E
 
